@@ -1033,7 +1033,7 @@ def main(prop, families=None):
     again = rs.repeat_first()
     chk.extra["first_solves_repeated_at_the_end"] = len(rs.FIRST)
     if again:
-        chk.violation("%d of the first %d solves of this run, repeated after all the others, no longer return bit-identical fields (largest difference %.3e): something of the solves in between survives in the process"
+        chk.violation("%d of the first %d solves of this run, repeated after all the others, no longer return the same fields (largest relative difference %.3e): something of the solves in between survives in the process"
                       % (len(again), len(rs.FIRST), max(d for _, d in again)), {"kind": "repeat_after_history", "solves": again}, klass={"check": "repeat_after_history"})
     if rs.MODIFIED:
         chk.violation("the solver modifies argument arrays in place (%s): every relation between two solves that share their arguments is void" % sorted(set(rs.MODIFIED)),
